@@ -342,8 +342,13 @@ func runOverlayTest(repo, pkgDir, fileName, src, testName string, timeoutSec int
 	ctx, cancel := context.WithTimeout(context.Background(), time.Duration(timeoutSec+60)*time.Second)
 	defer cancel()
 	rel, _ := filepath.Rel(repo, pkgDir)
-	cmd := exec.CommandContext(ctx, "go", "test", "-tags", "verif", "-overlay", ovPath, "-vet=off", "-count=1",
-		"-timeout", fmt.Sprintf("%ds", timeoutSec), "-run", "^"+testName+"$", "-v", "./"+rel)
+	argv := []string{"go", "test", "-tags", "verif", "-overlay", ovPath, "-vet=off", "-count=1",
+		"-timeout", fmt.Sprintf("%ds", timeoutSec), "-run", "^" + testName + "$", "-v", "./" + rel}
+	if netnsOK() {
+		// private network namespace: the server tests bind fixed ports
+		argv = append([]string{"unshare", "-n", "sh", "-c", "ip link set lo up; exec \"$@\"", "--"}, argv...)
+	}
+	cmd := exec.CommandContext(ctx, argv[0], argv[1:]...)
 	cmd.Dir = repo
 	cmd.Env = append(os.Environ(), env...)
 	var out bytes.Buffer
@@ -398,4 +403,14 @@ func scenarioReplay(w *World, verifDir, prop string, o *Obligation, rec map[stri
 		save()
 	}
 	return false
+}
+
+var netnsChecked, netnsAvail bool
+
+func netnsOK() bool {
+	if !netnsChecked {
+		netnsChecked = true
+		netnsAvail = exec.Command("unshare", "-n", "sh", "-c", "ip link set lo up").Run() == nil
+	}
+	return netnsAvail
 }
